@@ -998,8 +998,29 @@ fn op_wr(rest: &str) -> Option<String> {
         Err(_) if out3 == out => "err",
         _ => "odd",
     };
+    // the same value written a second time into one writer: the second call reports the size of
+    // what it wrote itself and appends the same bytes once more (a refusal leaves the writer alone)
+    let mut w4 = v2::Writer::from(pre.clone());
+    let r4a = with_payload!(&p, x => x.write_to(&mut w4));
+    let r4b = with_payload!(&p, x => x.write_to(&mut w4));
+    let out4 = w4.finish();
+    let again = match (&r, &r4a, &r4b) {
+        (Ok(n), Ok(a), Ok(b))
+            if a == n
+                && b == n
+                && out4.len() == 2 * out.len() - pre.len()
+                && out4[..out.len()] == out[..]
+                && out4[out.len()..] == out[pre.len()..] =>
+        {
+            "ok"
+        }
+        (Ok(n), Ok(a), Err(_)) if a == n => "err",
+        (Err(_), Err(_), Err(_)) if out4 == out => "ref",
+        (Err(_), Err(_), Err(_)) => "refp",
+        _ => "odd",
+    };
     Some(format!(
-        "ret={} pre={} app={} tb={} ref={} after={}",
+        "ret={} pre={} app={} tb={} ref={} after={} again={}",
         match r {
             Ok(n) => format!("ok:{}", n),
             Err(_) => "err".to_string(),
@@ -1011,7 +1032,8 @@ fn op_wr(rest: &str) -> Option<String> {
             Err(_) => "err".to_string(),
         },
         b01(ref_same),
-        after
+        after,
+        again
     ))
 }
 
